@@ -65,6 +65,8 @@ KF_DMASK_ARRAY = "KF-setitem-dask-mask-array-value"
 KF_NONE_KEY = "KF-setitem-newaxis-key"
 KF_DBOOL_BCAST = "KF-setitem-dask-bool-index-broadcast-value"
 KF_DINT_ND = "KF-setitem-dask-int-index-nd-value"
+KF_LEADING_ONE = "KF-setitem-value-extra-leading-dim"
+KF_WHERE_0D = "KF-ufunc-where-0d-out"
 KF_SEPARATED = "KF-index-int-fancy-separated"
 KF_RESHAPE0 = "KF-reshape-zero-size"
 
@@ -169,6 +171,14 @@ def _is_int_fancy(e):
 
 def _is_int(e):
     return isinstance(e, int) and not isinstance(e, bool)
+
+
+def is_full_dmask(key, ndim):
+    """The key is a dask bool array covering the whole target (Array.__setitem__ then goes through da.where)."""
+    t = key["tuple"]
+    if any(isinstance(e, dict) and ("dfull" in e or "dcmp" in e) for e in t):
+        return True
+    return bool(key.get("bare")) and ndim == 1 and len(t) == 1 and isinstance(t[0], dict) and "dask" in t[0] and "boolarr" in t[0]["dask"]
 
 
 def key_props(key):
@@ -712,7 +722,11 @@ class Interp:
         # --- defect regions this assignment lies in (see REGIONS)
         props = key_props(key)
         nonscalar = val != "masked" and np.ndim(np_val) > 0
-        dmask_key = any(isinstance(e, dict) and ("dfull" in e or "dcmp" in e) for e in key["tuple"])
+        dmask_key = is_full_dmask(key, t.mirror.ndim)
+        try:
+            sel = tuple(np.shape(t.mirror[np_key]))
+        except Exception:
+            sel = None
         if not dmask_key and (props["dask_index_multiblock"] or getattr(da_val, "npartitions", 1) > 1):
             self.tags.add(KF_MULTIBLOCK)
         if (props["int_before_intarr"] and nonscalar) or props["int_before_negslice"]:
@@ -723,12 +737,10 @@ class Interp:
             self.tags.add(KF_DMASK_ARRAY)
         if any(e is None for e in key["tuple"]):
             self.tags.add(KF_NONE_KEY)
-        if nonscalar and any(isinstance(e, dict) and "dask" in e for e in key["tuple"]):
+        if nonscalar and sel is not None and np.ndim(np_val) > len(sel):
+            self.tags.add(KF_LEADING_ONE)
+        if nonscalar and not dmask_key and any(isinstance(e, dict) and "dask" in e for e in key["tuple"]):
             is_bool = any(isinstance(e, dict) and "dask" in e and "boolarr" in e["dask"] for e in key["tuple"])
-            try:
-                sel = tuple(np.shape(t.mirror[np_key]))
-            except Exception:
-                sel = None
             if is_bool and tuple(np.shape(np_val)) != sel:
                 self.tags.add(KF_DBOOL_BCAST)
             if not is_bool and np.ndim(np_val) >= 2:
@@ -806,7 +818,7 @@ class Interp:
         nd = np.ndim(np_val) if val != "masked" else 0
         if any(isinstance(e, dict) and "npfull" in e for e in tup) and t.mirror.ndim >= 2:
             return "np-bool-full-nd"
-        if any(isinstance(e, dict) and ("dfull" in e or "dcmp" in e) for e in tup) and nd > 0:
+        if is_full_dmask(key, t.mirror.ndim) and nd > 0:
             return "dask-mask-array-value"
         if val != "masked" and nd > 0:
             try:
@@ -872,6 +884,8 @@ class Interp:
         except (TypeError, ValueError) as e:
             np_exc = e
         assert (np_exc is not None) == (expect == "raise"), f"NumPy {'raised ' + repr(np_exc) if np_exc else 'accepted'}; step expects {expect}"
+        if wh is not None and t.mirror.ndim == 0:
+            self.tags.add(KF_WHERE_0D)
         if wh is None and np_exc is None:
             with np.errstate(all="ignore"):
                 if np.asarray(npf(*[a for a, _, _ in ins])).dtype != t.mirror.dtype:
@@ -1112,6 +1126,17 @@ def _one_chunk(shape):
     return [[int(n)] for n in shape]
 
 
+def _no_neg_after_int(elems):
+    out, seen = [], False
+    for e in elems:
+        if _is_int(e):
+            seen = True
+        if seen and isinstance(e, dict) and "slice" in e and e["slice"][2] is not None and e["slice"][2] < 0:
+            e = {"slice": [None, None, -e["slice"][2]]}
+        out.append(e)
+    return out
+
+
 def _gen_key(D_, it, i, t, family):
     """-> (key, expect) ; key None when nothing sensible can be built."""
     shape = t.shape
@@ -1140,6 +1165,9 @@ def _gen_key(D_, it, i, t, family):
             allow_none = False
         idx = gidx.gen_basic_index(D_, shape, allow_none=allow_none)
         key = _enc_index(idx)
+        if key_props(key)["int_before_negslice"] and _steer(KF_INT_BEFORE):
+            it.excluded.append(KF_INT_BEFORE)
+            key = {"tuple": _no_neg_after_int(key["tuple"])}
         if len(idx) == 1 and D_.bool():
             key["bare"] = True
         return key, "ok"
@@ -1197,6 +1225,9 @@ def _gen_key(D_, it, i, t, family):
         if lead and len(elems) == nd:
             elems = ["..."] + elems[lead:]
     key = {"tuple": elems}
+    if key_props(key)["int_before_negslice"] and _steer(KF_INT_BEFORE):
+        it.excluded.append(KF_INT_BEFORE)
+        key = {"tuple": _no_neg_after_int(elems)}
     if len(elems) == 1 and D_.bool():
         key["bare"] = True
     return key, "ok"
@@ -1205,7 +1236,7 @@ def _gen_key(D_, it, i, t, family):
 def _gen_value(D_, it, i, t, key, sel):
     """Value for a selection of shape ``sel`` (NumPy semantics)."""
     tup = key["tuple"]
-    mask_key = any(isinstance(e, dict) and ("dfull" in e or "dcmp" in e) for e in tup)
+    mask_key = is_full_dmask(key, len(t.shape))
     np_full_nd = any(isinstance(e, dict) and "npfull" in e for e in tup) and len(t.shape) >= 2
     props = key_props(key)
     if t.unknown or np_full_nd or any(e is None for e in tup):
@@ -1237,7 +1268,10 @@ def _gen_value(D_, it, i, t, key, sel):
     if 0 in sel and not D_.chance(1, 10):
         vs = [min(n, 1) for n in vs]  # dask_array only takes unit-size values for an empty selection
     if k == "array" and sel and D_.chance(1, 10):
-        vs = [1] + vs
+        if _steer(KF_LEADING_ONE):
+            it.excluded.append(KF_LEADING_ONE)
+        else:
+            vs = [1] + vs
     dk = [e["dask"] for e in tup if isinstance(e, dict) and "dask" in e]
     if dk and "boolarr" in dk[0] and vs != list(sel) and _steer(KF_DBOOL_BCAST):
         it.excluded.append(KF_DBOOL_BCAST)
@@ -1300,6 +1334,17 @@ def gen_setitem(D_, it, family="any"):
             step["expect"] = "raise"
             return step
     step["value"] = _gen_value(D_, it, i, t, key, sel)
+    try:  # dry run of the NumPy side: valid by construction, but never hand an invalid step to the interpreter
+        np_val = it.decode_value(step["value"], t)[0]
+        m2 = _copy(t.mirror)
+        if step["value"] == "masked":
+            m2 = np.ma.array(m2, copy=True)
+        m2[np_key] = np_val
+    except (IndexError, ValueError, TypeError) as e:
+        it.rejects.append(f"generator-dry-run:{type(e).__name__}:{util.norm_msg(e, 50)}")
+        return None
+    finally:
+        it.tags = set()
     return step
 
 
@@ -1366,6 +1411,9 @@ def gen_ufunc(D_, it):
     else:
         ins = [member(allow_bcast=False)]
     wk = D_.weighted([("none", 5), ("npmask", 2), ("dmask", 2), ("dcmp", 2)])
+    if wk != "none" and not t.shape and _steer(KF_WHERE_0D):
+        it.excluded.append(KF_WHERE_0D)
+        wk = "none"
     where = None
     if wk in ("npmask", "dmask"):
         wshape = list(t.shape[-1:]) if (len(t.shape) >= 2 and D_.chance(1, 4)) else list(t.shape)
@@ -1746,12 +1794,14 @@ def shrink(case):
 
 REGION_DOC = {
     KF_MULTIBLOCK: "setitem (not through a full-shape dask mask) whose value or 1-d index is a dask array with more than one block",
-    KF_INT_BEFORE: "setitem with an integer index ahead of a 1-d integer array index and a non-scalar value",
+    KF_INT_BEFORE: "setitem with an integer index ahead of a negative-step slice, or ahead of a 1-d array index together with a non-scalar value",
     KF_MASKED_DMASK: "x[full-shape dask mask] = v where v is np.ma.masked or x already is a masked array",
     KF_DMASK_ARRAY: "x[full-shape dask mask] = array value (ndim > 0)",
     KF_NONE_KEY: "setitem key containing None (np.newaxis)",
     KF_DBOOL_BCAST: "setitem with a 1-d dask bool index and an array value whose shape differs from the selection (broadcast)",
     KF_DINT_ND: "setitem with a 1-d dask int index and a value of >= 2 dimensions",
+    KF_LEADING_ONE: "setitem with a value that has more dimensions than the selection (extra leading unit dimensions)",
+    KF_WHERE_0D: "ufunc(..., out=v, where=mask) on a 0-d v",
     KF_OUT_DTYPE: "ufunc(..., out=v) without where= whose natural result dtype differs from v's dtype",
     KF_SLICE_UOUT: "a basic index / boolean mask applied to a collection whose expression contains an ufunc out= result",
 }
